@@ -434,6 +434,10 @@ func TestC08Project(t *testing.T) {
 					cols = append(cols, "nosuchcol")
 					eitherErr = true
 				}
+				if k > 0 && rapid.IntRange(0, 3).Draw(t, "repeat") == 0 {
+					// naming a column twice still means: drop it
+					cols = append(cols, cols[rapid.IntRange(0, k-1).Draw(t, "repeatpos")])
+				}
 				req = fmt.Sprintf("Drop(%q)", cols)
 				run(func() { res = cur.Drop(cols...) })
 				want = in.Without(cols...)
@@ -457,6 +461,9 @@ func TestC08Project(t *testing.T) {
 			case "copy":
 				src := rapid.SampledFrom(append(append([]string(nil), names...), "nosuchcol")).Draw(t, "src")
 				dst := rapid.SampledFrom(append(append([]string(nil), names...), "n1", "n2", "", "'q'", "$v")).Draw(t, "dst")
+				if src == "nosuchcol" && rapid.Bool().Draw(t, "samedst") {
+					dst = "nosuchcol" // Copy(X, X) with an unknown X is still an unknown source
+				}
 				req = fmt.Sprintf("Copy(%q,%q)", dst, src)
 				run(func() { res = cur.Copy(dst, src) })
 				switch {
